@@ -125,11 +125,19 @@ where
         );
 
         // Get the log ids which are associated with this topic query.
-        let logs = self
-            .store
-            .resolve(&self.topic)
-            .await
-            .map_err(|err| TopicLogSyncError::TopicStore(err.to_string()))?;
+        let logs = match self.store.resolve(&self.topic).await {
+            Ok(logs) => logs,
+            Err(err) => {
+                // The session ends here: announce the failure like in every other phase.
+                let err = TopicLogSyncError::TopicStore(err.to_string());
+                self.event_tx
+                    .send(TopicLogSyncEvent::Failed {
+                        error: err.to_string(),
+                    })
+                    .map_err(|_| TopicLogSyncChannelError::EventSend)?;
+                return Err(err);
+            }
+        };
 
         if enabled!(Level::DEBUG) {
             let display_logs: BTreeMap<String, usize> =
@@ -316,9 +324,17 @@ where
             }
         };
 
-        sink.close()
+        // Attempt to close the sink, a failure here must not prevent the terminal event from
+        // being sent: it turns a so far successful session into a failed one.
+        let close_result = sink
+            .close()
             .await
-            .map_err(|err| TopicLogSyncChannelError::MessageSink(format!("{err:?}")))?;
+            .map_err(|err| TopicLogSyncChannelError::MessageSink(format!("{err:?}")));
+        let result = match (result, close_result) {
+            (Err(err), _) => Err(err),
+            (Ok(()), Err(err)) => Err(err.into()),
+            (Ok(()), Ok(())) => Ok(()),
+        };
 
         let final_event = match result.as_ref() {
             Ok(_) => {
